@@ -140,7 +140,31 @@ pub fn run(o: &DetectOpts) -> serde_json::Value {
             }
         }
         while cases.len() < o.n {
-            cases.push(gen_case(&mut rng, &corpus, o.max_len));
+            let mut c = gen_case(&mut rng, &corpus, o.max_len);
+            if o.focus == "C05" && c.settings.include_encodings.is_empty() && c.settings.exclude_encodings.is_empty() {
+                // filter-heavy stream: random labels in any spelling, sometimes an unknown one
+                let n = rng.range(1, 8);
+                for _ in 0..n {
+                    let l = rng.pick(LABEL_POOL).to_string();
+                    if rng.chance(2, 3) { c.settings.include_encodings.push(l) } else { c.settings.exclude_encodings.push(l) }
+                }
+                if rng.chance(1, 10) {
+                    let bad = rng.pick(BAD_LABELS).to_string();
+                    if rng.chance(1, 2) { c.settings.include_encodings.push(bad) } else { c.settings.exclude_encodings.push(bad) }
+                }
+            }
+            if o.focus == "C07" && rng.chance(1, 2) {
+                // mark-heavy stream
+                let ms = marks();
+                let (_, m) = *rng.pick(&ms);
+                let mut b = m.to_vec();
+                if rng.chance(1, 5) { b.extend_from_slice(m); }
+                b.extend_from_slice(&c.bytes);
+                b.truncate(o.max_len.max(8));
+                c.bytes = b;
+                c.kind = format!("{}+mark", c.kind);
+            }
+            cases.push(c);
         }
         // large payloads: both sides of the lazy limits
         for k in 0..o.big {
@@ -249,6 +273,7 @@ pub fn run(o: &DetectOpts) -> serde_json::Value {
                 found.extend(check_c01(&c.bytes, &c.settings, ms));
                 found.extend(check_c04(&c.bytes, &c.settings, ms));
                 found.extend(check_c05_membership(&c.settings, ms));
+                found.extend(check_c05_twin(&c.bytes, &c.settings, &real_lines));
                 found.extend(check_c07(&c.bytes, &c.settings, ms));
                 found.extend(check_c08(ms));
                 found.extend(check_c10(&c.bytes, &c.settings, ms));
